@@ -1,5 +1,7 @@
 import PsycheModel.Lemmas.Lex
 import PsycheModel.LexSpec
+import PsycheModel.Lemmas.LexConf
+import PsycheModel.Lemmas.LexNum
 /-!
 # C05 — Tokenisation follows the C11 lexical grammar
 
@@ -126,5 +128,30 @@ theorem punctuator_longest_match : ∀ e ∈ punctuators, ∀ r : S,
   simp only [punctuators, List.mem_cons, List.not_mem_nil, or_false] at he
   rcases he with rfl | rfl | rfl | rfl | rfl | rfl | rfl | rfl | rfl | rfl | rfl | rfl | rfl | rfl | rfl | rfl | rfl | rfl | rfl | rfl | rfl | rfl | rfl | rfl | rfl | rfl | rfl | rfl | rfl | rfl | rfl | rfl | rfl | rfl | rfl | rfl | rfl | rfl | rfl | rfl | rfl | rfl | rfl | rfl | rfl | rfl | rfl | rfl | rfl | rfl | rfl | rfl | rfl | rfl | rfl | rfl | rfl | rfl
   all_goals punct_tac
+
+/-- **6.4.2.1, identifiers.**  An identifier start followed by identifier characters - of ANY number, ASCII or not - up to a character that
+is none (and no quote: `L"…"`, `u8'…'` are literals) is read as one identifier-like word, all of it and nothing more (which keyword, if any,
+it is is C17's subject). -/
+theorem identifier_is_one_word (c0 : Nat) (cs r : S) (h0 : isIdStart c0 = true) (hcs : ∀ c ∈ cs, isIdCont c.c = true)
+    (hr : isIdCont (hd r) = false) (hq1 : hd r ≠ 34) (hq2 : hd r ≠ 39) :
+    (tokenAt c0 (cs ++ r)).kind = .IdentifierToken ∧ (tokenAt c0 (cs ++ r)).rest = r ∧ (tokenAt c0 (cs ++ r)).word = true := by
+  rw [identifier_reads c0 cs r h0 hcs hr hq1 hq2]
+  exact ⟨rfl, rfl, rfl⟩
+
+/-- **6.4.4.1, decimal integer constants.**  For every non-zero digit, every digit sequence of ANY length, each of the 23 integer-suffix
+spellings (or none) and every continuation that does not continue a word (and, without a suffix, does not begin a fraction), the lexer
+reads the constant, all of it and nothing more, as one integer constant. -/
+theorem decimal_integer_constant (d0 : Nat) (ds : S) (sfx : List Nat) (r : S)
+    (h0 : isDigit d0 = true) (hnz : d0 ≠ 48) (hds : ∀ c ∈ ds, isDigit c.c = true) (hs : sfx ∈ intSuffixes)
+    (hr : isWordTail (hd r) = false) (hdot : sfx = [] → hd r ≠ 46) :
+    (tokenAt d0 (ds ++ (asS sfx ++ r))).kind = .IntegerConstantToken ∧ (tokenAt d0 (ds ++ (asS sfx ++ r))).rest = r := by
+  rw [decimal_constant_reads d0 ds sfx r h0 hnz hds hs hr hdot]
+  exact ⟨rfl, rfl⟩
+
+/-- non-vacuity: `12345ull;`, `7)` and `u8x+` -/
+example : (tokenAt 49 (asS w!"2345" ++ (asS w!"ull" ++ asS w!";"))).kind = .IntegerConstantToken ∧
+    (tokenAt 49 (asS w!"2345" ++ (asS w!"ull" ++ asS w!";"))).rest = asS w!";" ∧ (tokenAt 55 (asS w!")")).kind = .IntegerConstantToken ∧
+    (tokenAt 117 (asS w!"8x" ++ asS w!"+")).rest = asS w!"+" := by
+  decide
 
 end PsycheModel.Props.C05
